@@ -23,25 +23,42 @@ type verifB struct {
 	rec     []int // recorded choices (first pass)
 	replay  bool  // second pass: re-use rec
 	rpos    int
+	limit     int // >= 0: emit only the first limit tokens
+	dropAt    int // >= 0: leave this token out
+	replaceAt int // >= 0: replace this token by ')'
 }
 
 func verifNewB(maxList, budget int) *verifB {
-	return &verifB{gapAt: -1, caseAt: -1, maxList: maxList, first: true, budget: budget}
+	return &verifB{gapAt: -1, caseAt: -1, maxList: maxList, first: true, budget: budget, limit: -1, dropAt: -1, replaceAt: -1}
 }
 
 // again prepares a second pass that repeats the recorded choices.
 func (b *verifB) again() *verifB {
-	return &verifB{gapAt: -1, caseAt: -1, maxList: b.maxList, first: true, rec: b.rec, replay: true}
+	return &verifB{gapAt: -1, caseAt: -1, maxList: b.maxList, first: true, rec: b.rec, replay: true, limit: -1, dropAt: -1, replaceAt: -1}
 }
 
-func (b *verifB) gap() {
-	if b.ntok == b.gapAt {
+// gap starts a new token; it returns false if the token is to be left out
+// (mutations of the sentence: truncation, deletion, replacement by ')').
+func (b *verifB) gap() bool {
+	k := b.ntok
+	b.ntok++
+	if b.limit >= 0 && k >= b.limit {
+		return false
+	}
+	if k == b.dropAt {
+		return false
+	}
+	if k == b.gapAt {
 		b.text += b.gapText
 	} else if !b.first {
 		b.text += " "
 	}
 	b.first = false
-	b.ntok++
+	if k == b.replaceAt {
+		b.text += ")"
+		return false
+	}
+	return true
 }
 
 // tight appends a token with no gap before it (only where the family wants
@@ -57,8 +74,10 @@ func (b *verifB) w(words string) {
 			j++
 		}
 		if j > i {
-			b.gap()
-			b.text += b.recase(words[i:j])
+			word := b.recase(words[i:j])
+			if b.gap() {
+				b.text += word
+			}
 		}
 		i = j + 1
 	}
@@ -112,8 +131,7 @@ func (b *verifB) p(toks string) {
 		for j < len(toks) && toks[j] != ' ' {
 			j++
 		}
-		if j > i {
-			b.gap()
+		if j > i && b.gap() {
 			b.text += toks[i:j]
 		}
 		i = j + 1
@@ -122,8 +140,9 @@ func (b *verifB) p(toks string) {
 
 // tok appends one token whose spelling may contain blanks (string literals).
 func (b *verifB) tok(t string) {
-	b.gap()
-	b.text += t
+	if b.gap() {
+		b.text += t
+	}
 }
 
 // opt is an optional clause: a symbolic bit while the deviation budget lasts.
@@ -166,6 +185,25 @@ func (b *verifB) alt(n int) int {
 	}
 	if v != 0 {
 		b.budget--
+	}
+	b.rec = append(b.rec, v)
+	return v
+}
+
+// altFree is a choice among n alternatives that does not consume the deviation
+// budget (selects which form of a statement family is generated).
+func (b *verifB) altFree(n int) int {
+	if b.replay {
+		v := b.rec[b.rpos]
+		b.rpos++
+		return v
+	}
+	v := verifChoice(n)
+	for k := 0; k < n; k++ {
+		if v == k {
+			v = k
+			break
+		}
 	}
 	b.rec = append(b.rec, v)
 	return v
@@ -683,7 +721,7 @@ func verifFamPipe(b *verifB) {
 
 func verifFamExprPrimary(b *verifB) {
 	b.kind, b.entry = "", verifEExpr
-	switch b.alt(22) {
+	switch b.altFree(22) {
 	case 0:
 		b.w("CASE")
 		if b.opt() {
@@ -938,7 +976,7 @@ func verifFamExprPrimary(b *verifB) {
 
 func verifFamType(b *verifB) {
 	b.kind, b.entry = "", verifEType
-	switch b.alt(5) {
+	switch b.altFree(5) {
 	case 0:
 		b.typ()
 	case 1:
@@ -1182,15 +1220,17 @@ func verifFamCreateTable(b *verifB) {
 	if b.opt() {
 		b.w("PRIMARY KEY")
 		b.p("(")
-		b.list(",", func(i int) {
-			b.name(i)
-			switch b.alt(3) {
-			case 1:
-				b.w("ASC")
-			case 2:
-				b.w("DESC")
-			}
-		})
+		if !b.opt() { // an empty key "PRIMARY KEY ()" is a singleton table
+			b.list(",", func(i int) {
+				b.name(i)
+				switch b.alt(3) {
+				case 1:
+					b.w("ASC")
+				case 2:
+					b.w("DESC")
+				}
+			})
+		}
 		b.p(")")
 	}
 	if b.opt() {
@@ -1226,7 +1266,7 @@ func verifFamAlterTable(b *verifB) {
 	b.kind, b.entry = "AlterTable", verifEDDL
 	b.w("ALTER TABLE")
 	b.path()
-	switch b.alt(14) {
+	switch b.altFree(14) {
 	case 0:
 		b.w("ADD COLUMN")
 		b.ifNotExists()
@@ -1371,7 +1411,7 @@ func verifFamAlterTable(b *verifB) {
 
 func verifFamIndex(b *verifB) {
 	b.entry = verifEDDL
-	switch b.alt(4) {
+	switch b.altFree(4) {
 	case 0:
 		b.kind = "CreateIndex"
 		b.w("CREATE")
@@ -1443,7 +1483,7 @@ func verifFamIndex(b *verifB) {
 
 func verifFamSearchIndex(b *verifB) {
 	b.entry = verifEDDL
-	switch b.alt(3) {
+	switch b.altFree(3) {
 	case 0:
 		b.kind = "CreateSearchIndex"
 		b.w("CREATE SEARCH INDEX")
@@ -1504,7 +1544,7 @@ func verifFamSearchIndex(b *verifB) {
 
 func verifFamChangeStream(b *verifB) {
 	b.entry = verifEDDL
-	switch b.alt(3) {
+	switch b.altFree(3) {
 	case 0:
 		b.kind = "CreateChangeStream"
 		b.w("CREATE CHANGE STREAM")
@@ -1565,7 +1605,7 @@ func (b *verifB) seqParam(which int) {
 
 func verifFamSequence(b *verifB) {
 	b.entry = verifEDDL
-	switch b.alt(3) {
+	switch b.altFree(3) {
 	case 0:
 		b.kind = "CreateSequence"
 		b.w("CREATE SEQUENCE")
@@ -1607,7 +1647,7 @@ func verifFamSequence(b *verifB) {
 
 func verifFamMisc(b *verifB) {
 	b.entry = verifEDDL
-	switch b.alt(16) {
+	switch b.altFree(16) {
 	case 0:
 		b.kind = "CreateSchema"
 		b.w("CREATE SCHEMA")
@@ -1713,7 +1753,7 @@ func verifFamGrant(b *verifB) {
 		b.kind = "Revoke"
 		b.w("REVOKE")
 	}
-	switch b.alt(5) {
+	switch b.altFree(5) {
 	case 0:
 		b.list(",", func(i int) {
 			k := b.alt(4)
@@ -1758,7 +1798,7 @@ func verifFamGrant(b *verifB) {
 
 func verifFamModel(b *verifB) {
 	b.entry = verifEDDL
-	switch b.alt(3) {
+	switch b.altFree(3) {
 	case 0:
 		b.kind = "CreateModel"
 		b.w("CREATE")
@@ -1811,7 +1851,7 @@ func verifFamModel(b *verifB) {
 
 func verifFamProtoBundle(b *verifB) {
 	b.entry = verifEDDL
-	switch b.alt(3) {
+	switch b.altFree(3) {
 	case 0:
 		b.kind = "CreateProtoBundle"
 		b.w("CREATE PROTO BUNDLE")
@@ -1973,4 +2013,4 @@ var verifFamilyNames = []string{
 	"create-table", "alter-table", "index", "search-index", "change-stream", "sequence", "misc-ddl", "grant", "model", "proto-bundle", "property-graph", "call",
 }
 
-var verifTrivia = []string{" ", "\n", "\t", "/*c*/", "--c\n", "#c\n", " /**/ ", "//c\n", "\r\n"}
+var verifTrivia = []string{" ", "\n", "\t", "/*c*/", "--c\n", "#c\n", " /**/ ", "//c\n", "\r\n", "\v", "\f", "\u00a0", "\u2028", " /* -- */ "}
